@@ -47,7 +47,26 @@ def obs_script():
     return s
 
 
+def cache_path(tier, seed):
+    from ..common import WORK, machinery_hash, source_hash
+
+    return WORK / "cache" / (source_hash() + "-" + machinery_hash()) / tier / f"c04-{seed}.json"
+
+
 def run(tier, seed):
+    """Cached per (source, machinery, tier, seed) like the pipeline: C05 reads the memory faults of the assemble and
+    compute kernels from the same exploration."""
+    import json
+
+    cp = cache_path(tier, seed)
+    if cp.exists():
+        return json.loads(cp.read_text())
+    out = _run(tier, seed)
+    dump(out, cp)
+    return out
+
+
+def _run(tier, seed):
     P = PARAMS[tier]
     timer = Timer()
     rng = random.Random(7 * seed + 4)
@@ -166,4 +185,4 @@ def replay(data):
 
     catalogue.CATALOGUE[:] = [("replay", c["text"])]
     catalogue.BROADCAST_TARGET[:] = []
-    return run("quick", 0)
+    return _run("quick", 0)
